@@ -164,6 +164,26 @@ def tiling(mesh, out, Lstar):
     return cover
 
 
+def scale_tree(thorough):
+    """One (cpu, level) block of more than 4096 cells (520 level-5 octs; 8200+ octs in the thorough tier), the
+    count not a multiple of a power of two >= 128."""
+    import itertools
+
+    ref = []
+    for lev in (1, 2, 3):
+        ref += [(lev, c) for c in itertools.product(range(2**lev), repeat=3)]
+    l4 = list(itertools.product(range(16), repeat=3))
+    n4 = 4096 if thorough else 520
+    ref += [(4, c) for c in l4[:n4]]
+    L = 5
+    if thorough:
+        # 8205 level-6 octs: 65640 cells in one block
+        l5 = [tuple(2 * x for x in c) for c in l4] + [tuple(2 * x + 1 for x in c) for c in l4] + [(2 * c[0] + 1, 2 * c[1], 2 * c[2]) for c in l4[:13]]
+        ref += [(5, c) for c in l5]
+        L = 6
+    return M1.Tree(3, L, ref)
+
+
 def families(thorough):
     fams = C01.tree_families(thorough, 0)
     if not thorough:
@@ -174,6 +194,12 @@ def families(thorough):
 
 
 def cases(thorough):
+    # block S: scale. A block of several thousand cells under a predicate (chunked evaluation, buffer growth)
+    t = scale_tree(thorough)
+    L = t.levelmax
+    for spec in (("le", L), ("le", L - 1), ("between", L - 2, L + 1), ("eq", L), ("lt", L)):
+        for extra in ("none", "density"):
+            yield "scale", t, spec, extra, "1cpu"
     for label, trees in families(thorough):
         big = len(trees) > 300
         if thorough and len(trees) > 2000:
